@@ -391,6 +391,22 @@ pub(crate) struct LogReader {
     processed (e.g. during database recoveries).
     */
     current_block_offset: usize,
+
+    /**
+    Set when the reader had to drop data: a fragment that failed its integrity check, a fragment
+    that does not continue the record being assembled, or a record whose fragments are not all
+    present.
+    */
+    dropped_data: bool,
+
+    /**
+    Set when data was dropped because it is damaged (failed integrity check, fragment without a
+    beginning) as opposed to merely unfinished.
+    */
+    saw_corruption: bool,
+
+    /// Set when the end of the file was reached at the end of a complete record.
+    reached_clean_end: bool,
 }
 
 /// Public methods
@@ -416,6 +432,9 @@ impl LogReader {
             initial_offset: initial_block_offset,
             current_cursor_position: initial_block_offset,
             current_block_offset: 0,
+            dropped_data: false,
+            saw_corruption: false,
+            reached_clean_end: false,
         };
 
         Ok(reader)
@@ -435,37 +454,93 @@ impl LogReader {
         if self.current_cursor_position > 0
             && (self.current_cursor_position as u64) >= self.len()?
         {
+            self.reached_clean_end = true;
             return Ok((vec![], true));
         }
 
         // A buffer consolidating all of the fragments retrieved from the log file.
         let mut data_buffer: Vec<u8> = vec![];
+        // True while the fragments of a record spanning several blocks are being collected.
+        let mut in_fragmented_record = false;
 
         loop {
-            let maybe_record = self.read_physical_record();
-            if let Err(physical_read_err) = maybe_record {
-                if let LogIOError::IO(db_io_error) = &physical_read_err {
-                    match db_io_error.kind() {
-                        ErrorKind::UnexpectedEof => return Ok((vec![], true)),
-                        _ => return Err(physical_read_err),
+            let record = match self.read_physical_record() {
+                Ok(record) => record,
+                Err(LogIOError::IO(db_io_error))
+                    if db_io_error.kind() == ErrorKind::UnexpectedEof =>
+                {
+                    // The writer died in the middle of a record. Everything before it was
+                    // delivered; the partial record is dropped.
+                    self.reached_clean_end = !in_fragmented_record
+                        && (self.current_cursor_position as u64) == self.len()?;
+                    if !self.reached_clean_end {
+                        self.dropped_data = true;
+                    }
+                    return Ok((vec![], true));
+                }
+                Err(io_err @ LogIOError::IO(_)) => return Err(io_err),
+                Err(_corruption) => {
+                    // The fragment failed its integrity check. It and the record it belongs to
+                    // cannot be delivered; continue with the next fragment.
+                    LogReader::log_corruption((HEADER_LENGTH_BYTES + data_buffer.len()) as u64);
+                    self.dropped_data = true;
+                    self.saw_corruption = true;
+                    data_buffer.clear();
+                    in_fragmented_record = false;
+                    continue;
+                }
+            };
+
+            match record.block_type {
+                BlockType::Full => {
+                    if in_fragmented_record {
+                        // The previous record was never finished (e.g. its writer died between
+                        // two fragments and a later writer appended to the file).
+                        self.dropped_data = true;
+                    }
+                    return Ok((record.data, false));
+                }
+                BlockType::First => {
+                    if in_fragmented_record {
+                        self.dropped_data = true;
+                    }
+                    data_buffer = record.data;
+                    in_fragmented_record = true;
+                }
+                BlockType::Middle => {
+                    if in_fragmented_record {
+                        data_buffer.extend(record.data);
+                    } else {
+                        // A fragment without a beginning is not part of any record
+                        self.dropped_data = true;
+                        self.saw_corruption = true;
                     }
                 }
-            } else {
-                let record = maybe_record.unwrap();
-                data_buffer.extend(record.data);
+                BlockType::Last => {
+                    if in_fragmented_record {
+                        data_buffer.extend(record.data);
+                        return Ok((data_buffer, false));
+                    }
 
-                match record.block_type {
-                    BlockType::Full => {
-                        return Ok((data_buffer, false));
-                    }
-                    BlockType::First => {}
-                    BlockType::Middle => {}
-                    BlockType::Last => {
-                        return Ok((data_buffer, false));
-                    }
+                    // A fragment without a beginning is not part of any record
+                    self.dropped_data = true;
+                    self.saw_corruption = true;
                 }
             }
         }
+    }
+
+    /// Returns true if the reader had to skip damaged data (as opposed to unfinished records).
+    pub fn saw_corruption(&self) -> bool {
+        self.saw_corruption
+    }
+
+    /**
+    Returns true if the whole file was read and it ended right after a complete record, i.e. it is
+    safe to continue appending to the file.
+    */
+    pub fn ended_cleanly(&self) -> bool {
+        self.reached_clean_end && !self.dropped_data
     }
 }
 
@@ -553,12 +628,14 @@ impl LogReader {
             )));
         }
 
-        // Parse the payload
-        let serialized_block = [header_buffer.to_vec(), data_buffer].concat();
-        let block_record: BlockRecord = BlockRecord::try_from(&serialized_block)?;
+        // The bytes were consumed whether or not they parse, so account for them first
         self.current_cursor_position += header_buffer.len() + data_bytes_read;
         self.current_block_offset =
             (self.current_block_offset + data_bytes_read) % BLOCK_SIZE_BYTES;
+
+        // Parse the payload
+        let serialized_block = [header_buffer.to_vec(), data_buffer].concat();
+        let block_record: BlockRecord = BlockRecord::try_from(&serialized_block)?;
 
         Ok(block_record)
     }
